@@ -18,6 +18,7 @@ import (
 	"go.nanomsg.org/mangos/v3/protocol/surveyor"
 	_ "go.nanomsg.org/mangos/v3/transport/inproc"
 	"go.nanomsg.org/mangos/v3/vh/c08"
+	"go.nanomsg.org/mangos/v3/vh/c19"
 	"go.nanomsg.org/mangos/v3/vh/kinds"
 	"go.nanomsg.org/mangos/v3/vh/kit"
 	"go.nanomsg.org/mangos/v3/vh/ledger"
@@ -53,6 +54,8 @@ func init() {
 			{Name: "fanout-survey-inproc", Mode: "sched", Bound: b, Cfg: pool, Reset: kit.ResetGlobals, Body: fanoutSurvey},
 			{Name: "star-hub-stalled-member-ownership", Mode: "enum", Reset: kit.ResetGlobals, Body: func() { ledger.Install(); c08.StarStalled() }},
 			{Name: "req-retained-request-loss", Mode: "hist", Reset: kit.ResetGlobals, Body: reqRetained},
+			{Name: "receive-queue-replaced-while-a-message-waits-for-room", Mode: "sched", Bound: b, Reset: kit.ResetGlobals, Body: func() { ledger.Install(); c19.QlenParked(false) },
+				NeedCounters: []string{"resized-with-a-message-waiting-for-room", "received-after-resize"}},
 			{Name: "send-vs-last-peer-leaving", Mode: "sched", Bound: b, Reset: kit.ResetGlobals, Body: sendVsLeaving},
 			{Name: "pub-pipe-fails-mid-send", Mode: "sched", Bound: b, Reset: kit.ResetGlobals, Body: pubPipeFails},
 			{Name: "fanout-stream-write-error", Mode: "sched", Bound: b - 1, Reset: kit.ResetGlobals, Body: streamWriteError},
